@@ -187,6 +187,7 @@ PROPS = {
         "rule": RULE_SCHED,
         "scenarios": [
             {"name": "incl", "quick": 60000, "thorough": 6000000, "thorough_time": 300},
+            {"name": "incl-twice", "quick": 20000, "thorough": 1000000, "thorough_time": 60},
             {"name": "incl-booking", "quick": 20000, "thorough": 2000000, "thorough_time": 120, "extra": ["-sim.only=booking-rpc,list-include,fold-mismatch,panic"]},
         ],
         "require_hits": ["bus.send.each", "collection.publish"],
